@@ -112,10 +112,12 @@ func DriverMain(args []string) int {
 	defer os.RemoveAll(tmp)
 
 	// 1. determinism self-test
-	det, ok := determinismTest(prop, tier, base, cfg.DetSeeds, tmp)
-	if !ok {
-		fmt.Println("HARNESS-ERROR: determinism self-test diverged; no verdict")
-		return 2
+	det, detOK := determinismTest(prop, tier, base, cfg.DetSeeds, tmp)
+	if !detOK {
+		// Either the harness or the library under test is not deterministic. The
+		// search still runs: a violation it finds stands on its own replay file.
+		// Without one there is no verdict (exit 2), never a VIOLATION line.
+		fmt.Println("determinism self-test diverged: same run indices gave different traces in different processes")
 	}
 
 	// 2. seeded search
@@ -171,6 +173,10 @@ func DriverMain(args []string) int {
 	// 4. evidence
 	wall := time.Since(t0).Seconds()
 	writeEvidence(prop, tier, base, cfg, workers, agg, det, len(reported), knownHits, wall)
+	if !detOK && exit == 0 {
+		fmt.Println("HARNESS-ERROR: determinism self-test diverged and the search found no violation; no verdict")
+		exit = 2
+	}
 	fmt.Printf("property=%s tier=%s worlds=%d evals=%d distinct=%d nontrivial=%d paths=%d schedules=%d violations=%d known=%d wall=%.1fs\n",
 		prop, tier, agg.Stats.Worlds, agg.Stats.Evals, len(agg.sets[0]), len(agg.sets[1]), len(agg.sets[2]), len(agg.sets[3]), len(reported), len(knownHits), wall)
 	return exit
@@ -327,6 +333,9 @@ func search(prop, tier string, base uint64, cfg tierCfg, workers int, tmp string
 		return agg, 2
 	}
 	for i, hw := range hangs {
+		if i >= 2 {
+			break // two confirmed hangs are report enough; each confirmation costs 20 s
+		}
 		// a suspected hang counts only if it reproduces alone in a fresh process
 		path := filepath.Join(tmp, fmt.Sprintf("hang%d.json", i))
 		b, _ := json.Marshal(map[string]interface{}{"property": prop, "kind": "hang", "world": hw})
